@@ -1336,3 +1336,169 @@ Proof.
   - apply in_flat_map in Hx. destruct Hx as [e [He Hx]].
     apply (components_good v u t Hu E e He). exact Hx.
 Qed.
+
+(* ------------------------------------------------------------------ *)
+(* C08: well-formedness of the emitted document for well-linked universes *)
+
+Definition route_linked (c : ctrl) (r : route) : bool :=
+  let names := template_names (full_path c r) in
+  forallb (fun n => Nat.eqb (List.length (filter (fun p => str_eqb (rp_wire p) n) (path_params r))) 1) names &&
+  forallb (fun p => mem str_eqb (rp_wire p) names) (path_params r).
+
+Definition enum_decl_ok (v : dialect) (d : decl) : bool :=
+  match d_body d with
+  | DEnum base cs => forallb (fun c => value_in_type (openapi_type base) (enum_value v base (snd c))) cs
+  | _ => true
+  end.
+
+Definition well_linked (v : dialect) (u : universe) : Prop :=
+  universe_ok u /\ quiet u = true /\
+  (forall c r, In (c, r) (shown_routes u) ->
+     route_linked c r = true /\ unique_params (map mk_dparam (filter in_url (r_params r))) = true) /\
+  (forall d, In d (u_decls u) -> enum_decl_ok v d = true).
+
+Lemma lower_loc_path l : str_eqb (lower_loc l) (s "path") = loc_eqb l LPath.
+Proof. destruct l; reflexivity. Qed.
+
+Lemma split_required v : exists l, l <> [] /\ split_on comma (v ++ s ",required") = l ++ [s "required"].
+Proof.
+  induction v as [|c v [l [Hl E]]].
+  - exists [[]]. split; [discriminate|reflexivity].
+  - change ((c :: v) ++ s ",required") with (c :: (v ++ s ",required")).
+    cbn [split_on]. rewrite E. destruct (beqb c comma).
+    + exists ([] :: l). split; [discriminate|reflexivity].
+    + destruct l as [|h l']; [contradiction|]. simpl. exists ((c :: h) :: l'). split; [discriminate|reflexivity].
+Qed.
+
+Lemma required_appended v : has_required_tag (v ++ s ",required") = true.
+Proof.
+  unfold has_required_tag. destruct (split_required v) as [l [_ E]]. rewrite E.
+  rewrite existsb_app. apply orb_true_iff. right. reflexivity.
+Qed.
+
+Lemma path_param_required p : loc_eqb (rp_loc p) LPath = true -> has_required_tag (rp_reduced p) = true.
+Proof.
+  intros H. unfold rp_reduced. rewrite H. rewrite andb_false_r.
+  destruct (is_nil (rp_validator_str p)); [reflexivity|].
+  destruct (has_required_tag (rp_validator_str p)) eqn:E; auto. apply required_appended.
+Qed.
+
+Lemma filter_path_map l :
+  filter (fun p => str_eqb (op_in p) (s "path")) (map mk_dparam l) =
+  map mk_dparam (filter (fun p => loc_eqb (rp_loc p) LPath) l).
+Proof.
+  induction l as [|p l IH]; simpl; auto.
+  rewrite lower_loc_path. destruct (loc_eqb (rp_loc p) LPath); simpl; rewrite IH; reflexivity.
+Qed.
+
+Lemma path_params_in_url r :
+  filter (fun p => loc_eqb (rp_loc p) LPath) (filter in_url (r_params r)) = path_params r.
+Proof.
+  unfold path_params. rewrite filter_filter. apply filter_ext. intros p. unfold in_url.
+  destruct (rp_loc p); reflexivity.
+Qed.
+
+Lemma count_required_path n l :
+  (forall p, In p l -> loc_eqb (rp_loc p) LPath = true) ->
+  List.length (filter (fun p => str_eqb (op_name p) n && op_required p) (map mk_dparam l)) =
+  List.length (filter (fun p => str_eqb (rp_wire p) n) l).
+Proof.
+  induction l as [|p l IH]; intros H; simpl; auto.
+  rewrite (path_param_required p (H p (or_introl eq_refl))), andb_true_r.
+  destruct (str_eqb (rp_wire p) n); simpl; rewrite IH; auto; intros q Hq; apply H; right; auto.
+Qed.
+
+Lemma forallb_map {A B} (f : B -> bool) (g : A -> B) l : forallb f (map g l) = forallb (fun x => f (g x)) l.
+Proof. induction l; simpl; auto. rewrite IHl. reflexivity. Qed.
+
+Lemma forallb_ext_l {A} (f g : A -> bool) l : (forall x, f x = g x) -> forallb f l = forallb g l.
+Proof. intros H. induction l; simpl; auto. rewrite H, IHl. reflexivity. Qed.
+
+Lemma mk_dop_path_params cfg c r : path_params_ok (mk_dop cfg c r) = route_linked c r.
+Proof.
+  unfold path_params_ok, route_linked, mk_dop; cbn [dop_path dop_params].
+  rewrite filter_path_map, path_params_in_url. f_equal.
+  - apply forallb_ext_l. intros n. rewrite count_required_path; auto.
+    intros p Hp. unfold path_params in Hp. apply filter_In in Hp. tauto.
+  - rewrite forallb_map. reflexivity.
+Qed.
+
+Lemma scheme_eqb_refl a : scheme_eqb a a = true.
+Proof. unfold scheme_eqb. rewrite !str_eqb_refl. reflexivity. Qed.
+
+Lemma enum_typed_component v d : enum_typed (component v d) = enum_decl_ok v d.
+Proof.
+  unfold enum_typed, component, enum_decl_ok. destruct (d_body d); auto.
+  cbn [enum_comp k_enum k_type]. rewrite forallb_map. reflexivity.
+Qed.
+
+Lemma generic_table_entries v u e :
+  In e (generic_table v u) -> (exists d, In d (u_decls u) /\ snd e = component v d) \/ snd e = rfc_comp.
+Proof.
+  unfold generic_table, with_rfc. intros H.
+  apply set_all_entries in H. destruct H as [H|[d [Hd E]]].
+  2:{ left. exists d. subst e. split; auto. unfold alias_decls in Hd. apply filter_In in Hd.
+      apply in_reached_decls; tauto. }
+  assert (G : In e (set_all (component v) (sorted_structs u) (set_all (component v) (sorted_enums u) [])) ->
+              exists d, In d (u_decls u) /\ snd e = component v d).
+  { intros H0. apply set_all_entries in H0. destruct H0 as [H0|[d [Hd E]]].
+    - apply set_all_entries in H0. destruct H0 as [[]|[d [Hd E]]].
+      exists d. subst e. split; auto. apply in_reached_decls. eapply sorted_in_reached; eauto.
+    - exists d. subst e. split; auto. apply in_reached_decls. eapply sorted_in_reached; eauto. }
+  destruct (plain_error_present u); auto.
+  apply in_set_comp in H. destruct H as [->|H]; auto.
+Qed.
+
+Theorem emit_wf v u d : well_linked v u -> emit v u = Some d -> wf d = true.
+Proof.
+  intros [Hu [Q [Hl He]]] H.
+  pose proof (emit_refs_closed v u d Hu H) as R.
+  unfold emit in H. destruct (negb (security_ok u)); [discriminate|].
+  rewrite !(components_quiet _ u Q) in H. inversion H; subst d. clear H.
+  unfold wf. rewrite R. cbn [doc_ops doc_comps andb].
+  assert (Hops : forall o, In o (fold_left set_dop (map (fun cr => mk_dop (u_cfg u) (fst cr) (snd cr)) (shown_routes u)) []) ->
+                 exists c r, In (c, r) (shown_routes u) /\ o = mk_dop (u_cfg u) c r).
+  { intros o Ho. apply in_fold_set_dop in Ho. destruct Ho as [[]|Ho].
+    apply in_map_iff in Ho. destruct Ho as [[c r] [E Hcr]]. exists c, r. auto. }
+  repeat (apply andb_true_iff; split).
+  - apply forallb_forall. intros o Ho. destruct (Hops o Ho) as [c [r [Hcr ->]]].
+    rewrite mk_dop_path_params. apply (Hl c r Hcr).
+  - apply forallb_forall. intros o Ho. destruct (Hops o Ho) as [c [r [Hcr ->]]].
+    cbn [mk_dop dop_params]. apply (Hl c r Hcr).
+  - apply forallb_forall. intros o Ho. destruct (Hops o Ho) as [c [r [Hcr ->]]].
+    unfold resps_described, mk_dop; cbn [dop_resps]. unfold route_resps.
+    rewrite forallb_app. apply andb_true_iff. split; [|reflexivity].
+    rewrite forallb_map. apply forallb_forall. reflexivity.
+  - apply forallb_forall. intros e Hin. destruct (generic_table_entries v u e Hin) as [[d0 [Hd E]]|E]; rewrite E.
+    + rewrite enum_typed_component. apply He; auto.
+    + reflexivity.
+Qed.
+
+(* info / servers / securitySchemes are the configuration's whenever something is emitted *)
+Theorem emit_sections v u d : emit v u = Some d -> sections_ok (u_cfg u) d = true.
+Proof.
+  unfold emit. destruct (security_ok u) eqn:S; cbn [negb]; [|intros H; discriminate H].
+  destruct (components V30 u); [|intros H; discriminate H].
+  destruct (components v u); [|intros H; discriminate H].
+  intros H. inversion H; subst d. clear H.
+  unfold sections_ok; cbn [doc_title doc_version doc_servers doc_schemes doc_ops].
+  rewrite !str_eqb_refl. cbn [list_eqb andb]. rewrite str_eqb_refl. cbn [andb].
+  rewrite (mset_eqb_refl_l scheme_eqb scheme_eqb_refl). cbn [andb].
+  apply forallb_forall. intros o Ho. apply in_fold_set_dop in Ho. destruct Ho as [[]|Ho].
+  apply in_map_iff in Ho. destruct Ho as [[c r] [E Hcr]]. subst o. cbn [mk_dop dop_security fst snd].
+  rewrite forallb_map. unfold security_ok in S. rewrite forallb_forall in S. specialize (S (c, r) Hcr).
+  simpl in S. rewrite forallb_forall in S. apply forallb_forall. intros x Hx. simpl.
+  rewrite (S x Hx). reflexivity.
+Qed.
+
+Theorem cmd_wf lib_ok v u d : well_linked v u -> cmd lib_ok v u = Wrote d -> prop_C08 (u_cfg u) d = true.
+Proof.
+  intros Hw. unfold cmd. destruct (negb (gleece_accepts u)); [discriminate|].
+  destruct (emit v u) as [d0|] eqn:E; [|discriminate]. destruct (lib_ok d0); [|discriminate].
+  intros H. inversion H; subst d0. unfold prop_C08.
+  rewrite (emit_wf v u d Hw E), (emit_sections v u d E). reflexivity.
+Qed.
+
+(* a failed command writes nothing: there is no document to speak of *)
+Theorem cmd_failed_no_doc lib_ok v u : cmd lib_ok v u = Failed -> forall d, cmd lib_ok v u <> Wrote d.
+Proof. intros H d H'. rewrite H in H'. discriminate. Qed.
